@@ -14,6 +14,20 @@ use sqlgrep::parsing;
 struct Cap { lines: Vec<String> }
 impl Printer for Cap { fn println(&mut self, line: &str) { self.lines.push(line.to_owned()); } }
 
+// "\n" and "\xHH" escapes -> bytes (so that invalid UTF-8 can be passed on a command line)
+fn unescape(s: &str) -> Vec<u8> {
+    let b = s.as_bytes();
+    let mut out = Vec::new();
+    let mut i = 0;
+    while i < b.len() {
+        if b[i] == b'\\' && i + 1 < b.len() && b[i + 1] == b'n' { out.push(b'\n'); i += 2; }
+        else if b[i] == b'\\' && i + 3 < b.len() && b[i + 1] == b'x' {
+            out.push(u8::from_str_radix(std::str::from_utf8(&b[i + 2..i + 4]).unwrap(), 16).unwrap()); i += 4;
+        } else { out.push(b[i]); i += 1; }
+    }
+    out
+}
+
 fn main() {
     let args: Vec<String> = std::env::args().collect();
     let (table, query, expect) = (&args[1], &args[2], &args[3]);
@@ -22,7 +36,7 @@ fn main() {
     let mut files = Vec::new();
     for (i, content) in args[4..].iter().enumerate() {
         let p = dir.join(format!("f{}.log", i));
-        File::create(&p).unwrap().write_all(content.replace("\\n", "\n").as_bytes()).unwrap();
+        File::create(&p).unwrap().write_all(&unescape(content)).unwrap();
         files.push(File::open(&p).unwrap());
     }
     let mut query = query.clone();
